@@ -35,7 +35,7 @@ Qed.
 
 (* a put that is not refused and whose guards hold stores the file exactly at the location its record names *)
 Lemma put_coherent_stores_p : forall s id p ext c,
-  refuse_location true p = false -> held_any s [id] = false -> inside (target_loc p ext) = true ->
+  refuse_w true true p = false -> held_any s [id] = false -> inside (target_loc p ext) = true ->
   put_coherent (Put id (FOk p) ext c) = true ->
   let s' := fst (step s (Put id (FOk p) ext c)) in
   snd (step s (Put id (FOk p) ext c)) = Done
@@ -58,7 +58,7 @@ Definition st1 : state := mkState [] [] [] [(stage0, 1%N); (sentA, 3%N); (sentB,
 (* REPAIRED by 5539e78.  Before it (step_v true false: df0ecd0 in, no check on record paths at use time): ingest(copy) into a
    run that encodes ".." three times is accepted -- the written location is inside the root -- the record it leaves names a
    location OUTSIDE the root, and pruning the dataset deleted the foreign file there *)
-Definition step_nofix : state -> op -> state * outcome := step_v true false true.
+Definition step_nofix : state -> op -> state * outcome := step_v true false true false.
 Definition nested_ingest : op := Ingest Copy [1%N] (fmt1 run3) ".yaml" stage0.
 Definition nested_put : op := Put 2 (fmt run3) ".yaml" 9.
 
@@ -85,17 +85,29 @@ Lemma foreign_refuted_nested_escape_put_p :
     /\ fget (fs (fst (step_nofix s1 (Prune [2%N])))) sentB = None.
 Proof. vm_compute. repeat split; reflexivity. Qed.
 
-(* with 5539e78 (step): the ingest is still accepted and still leaves such a record, but prune is REFUSED (ValueError), the
-   foreign file keeps its content; residue: the dataset sits in the trash with its record and its artifact inside the root *)
+(* the code before a79f022 (step_nowrule: all earlier repairs in, no write-time rule) still ACCEPTED the ingest and left such a
+   record; from that state the code as it is (step) refuses the prune at use time (ValueError), the foreign file keeps its content;
+   the dataset sits in the trash with its record and its artifact inside the root: the RESIDUE that a79f022 makes unreachable *)
+Definition step_nowrule : state -> op -> state * outcome := step_v true true true false.
 Lemma nested_escape_refused_now_p :
-  let s1 := fst (step st1 nested_ingest) in
+  let s1 := fst (step_nowrule st1 nested_ingest) in
   let s2 := fst (step s1 (Prune [1%N])) in
-    snd (step st1 nested_ingest) = Done /\ recs_inside s1 = false
+    snd (step_nowrule st1 nested_ingest) = Done /\ recs_inside s1 = false
     /\ snd (step s1 (Prune [1%N])) = Refused ValueErr
     /\ fget (fs s2) sentA = Some 3%N
     /\ recs s2 = recs s1 /\ live s2 = [] /\ trash s2 = [1%N]
-    /\ fget (fs s2) ["%2E%2E"; "sentinel"; "dtD"; "dtD_Cam_det1_%2E%2E_sentinel.yaml"] = Some 1%N.
+    /\ fget (fs s2) ["%2E%2E"; "sentinel"; "dtD"; "dtD_Cam_det1_%2E%2E_sentinel.yaml"] = Some 1%N
+    /\ snd (step s2 EmptyTrash) = Refused ValueErr.
 Proof. vm_compute. repeat split; reflexivity. Qed.
+
+(* with a79f022 (step): the name is refused at WRITE time, for ingest and for put, with the state unchanged *)
+Lemma nested_escape_refused_at_write_p :
+  step st1 nested_ingest = (st1, Refused ValueErr) /\ step st1 nested_put = (st1, Refused ValueErr)
+  /\ (exists p, fmt1 run3 = FOk p /\ checked true p = true /\ write_rule p = false).
+Proof.
+  split; [vm_compute; reflexivity|]. split; [vm_compute; reflexivity|].
+  exists "%25252E%25252E/sentinel/dtD/dtD_Cam_det1_%25252E%25252E_sentinel". repeat split; vm_compute; reflexivity.
+Qed.
 
 (* ---- MAIN 2 at full strength: no state guard at all --------------------------------------------------------------------- *)
 (* conditions on the OPERATIONS only: put / ingest carry a formatter extension, a zip path is inside, a put's text does not
@@ -119,7 +131,7 @@ Proof.
   destruct fr as [p| |]; try (apply Other; reflexivity).
   simpl in He, Hnr. apply negb_true_iff in Hnr.
   unfold step, step_v.
-  destruct (refuse_location true p) eqn:R; [reflexivity|].
+  destruct (refuse_w true true p) eqn:R; [reflexivity|].
   destruct (held_any s [id]); [reflexivity|].
   pose proof (refuse_false_checked p R) as Hc.
   pose proof (writes_inside_root_p p ext He Hc) as Hti.
